@@ -199,6 +199,19 @@ def check_case(case):
     finally:
         tmp.cleanup(*paths)
 
+    # the same holder object, another screen: the entries are the metric on the predictions for THAT screen
+    if n >= 2:
+        rows2 = [dict(r_, s="s%d" % ((int(r_["s"][1:]) + 1) % sc["ns"])) for r_ in sc["rows"]][::-1] + sc["rows"][:1]
+        screen2 = S.build_screen(dict(sc, rows=rows2), treatment_mapping=tm, sample_mapping=sm)
+        preds2 = [np.asarray(t.predict_viability(screen2), dtype=float) for t in holder.thetas]
+        exp2 = np.zeros((n, n))
+        for i in range(n):
+            for j in range(i):
+                exp2[i, j] = exp2[j, i] = oracle(preds2[i], preds2[j])
+        m2 = dc.calculate_pairwise_distance_matrix_on_predictions(thetas=holder, distance_metric=metric, data=screen2, chunk_index=0, n_chunks=1)
+        require(np.allclose(m2.to_dense(), exp2, rtol=1e-12, atol=1e-15), "second_screen.values", lambda: "matrix for a second screen computed with the same collection of samples differs from the metric on that screen's predictions: %r vs %r" % (m2.to_dense().tolist(), exp2.tolist()))
+        again1 = dc.calculate_pairwise_distance_matrix_on_predictions(thetas=holder, distance_metric=metric, data=screen, chunk_index=0, n_chunks=1)
+        require(np.array_equal(again1.to_dense(), dense1), "first_screen.repeatable", "recomputing the matrix for the first screen gives other values")
     order = case["order"]
     repeated = len(order) > len(set(order))
     out_of_order = order != sorted(order)
